@@ -65,6 +65,9 @@ def load_known(prop):
 # worker
 # ---------------------------------------------------------------------------------------------------------
 
+_PROC_HISTORY = []     # every run descriptor this (worker) process has executed, in order
+
+
 def _worker(prop, descs, known_sigs, want_log):
     faulthandler.enable()
     faulthandler.dump_traceback_later(900, exit=True)
@@ -72,7 +75,8 @@ def _worker(prop, descs, known_sigs, want_log):
     out = {'runs': 0, 'events': 0, 'probes': Counter(), 'faults': Counter(), 'states': set(),
            'transitions': set(), 'nontrivial': set(), 'known_hit': Counter(), 'unknown': [], 'digests': [],
            'samples': [], 'harness': None, 'log': []}
-    for desc in descs:
+    for di, desc in enumerate(descs):
+        _PROC_HISTORY.append(desc)
         try:
             rec = Eng().run(desc)
         except kernel.SimTimeout:
@@ -102,7 +106,8 @@ def _worker(prop, descs, known_sigs, want_log):
             elif inc.sig not in seen:
                 seen.add(inc.sig)
                 if len(out['unknown']) < 50:
-                    out['unknown'].append({'desc': desc, 'events': rec.events, 'incident': inc.to_json()})
+                    out['unknown'].append({'desc': desc, 'events': rec.events, 'incident': inc.to_json(),
+                                           'history': list(_PROC_HISTORY[-1500:])})
     faulthandler.cancel_dump_traceback_later()
     return out
 
@@ -116,7 +121,7 @@ def _chunks(xs, n):
 # replay + fresh-interpreter confirmation
 # ---------------------------------------------------------------------------------------------------------
 
-def write_replay(prop, seed, events, inc, minimised):
+def write_replay(prop, seed, events, inc, minimised, history=None):
     os.makedirs(REPLAY_DIR, exist_ok=True)
     d = hashlib.sha256(kernel.jdump(events).encode()).hexdigest()[:10]
     path = os.path.join(REPLAY_DIR, f'{prop}-{seed}-{d}.json')
@@ -128,7 +133,7 @@ def write_replay(prop, seed, events, inc, minimised):
         script = None
     with open(path, 'w') as f:
         json.dump({'property': prop, 'seed': seed, 'signature': inc['signature'], 'detail': inc['detail'],
-                   'minimised': minimised, 'events': events, 'script': script,
+                   'minimised': minimised, 'events': events, 'script': script, 'history': history,
                    'replay_cmd': f'./check {prop} --replay {path}'}, f, indent=1, default=repr)
     return path
 
@@ -152,6 +157,15 @@ def replay_file(prop, path):
     with open(path) as f:
         r = json.load(f)
     Eng = engine_factory(prop)
+    if r.get('history'):
+        # the violation depends on state that an earlier run of the same process left behind (state the per-run reset
+        # does not know about): re-execute the recorded sequence of runs, in order, in this process
+        rec = None
+        for desc in r['history']:
+            rec = Eng().run(desc)
+            if any(i.sig == r.get('signature') for i in rec.incidents):
+                break
+        return r, rec
     rec = Eng().replay(r['events'])
     return r, rec
 
@@ -328,15 +342,30 @@ def check(prop, tier, seed, workers=None, runs=None):
     by_sig = {}
     for u in agg['unknown']:
         by_sig.setdefault(u['incident']['signature'], u)
-    for sig in sorted(by_sig)[:8]:
+    for sig in sorted(by_sig, key=lambda s_: ('|hang|' in s_, s_))[:8]:
         u = by_sig[sig]
         events, ok = kernel.minimise(lambda: Eng(), u['events'], sig)
+        if ok and not any(i.sig == sig for i in Eng().replay(events).incidents):
+            ok = False        # reproduced once but not twice: state outside the run is involved
         if not ok and '|hang|' in sig:
             # an event exceeded its CPU budget once and not again: a stall of the machine, not a property of the code
             print(f'NOTE transient stall (event over its CPU budget, not reproducible): {sig} in run {u["desc"]}')
             continue
         if not ok:
-            print(f'HARNESS-NONDETERMINISM signature={sig} did not reproduce in-process (run {u["desc"]})')
+            # not reproducible from the run's own events: perhaps an earlier run in the same worker left state behind
+            # that the per-run reset does not cover.  Replay the worker's sequence of runs in a fresh interpreter.
+            hist = u.get('history') or [u['desc']]
+            path = write_replay(prop, u['desc']['seed'], u['events'], u['incident'], False, history=hist)
+            fired, out = confirm_fresh(prop, path, sig)
+            if fired:
+                violations += 1
+                print(f'VIOLATION property={prop} replay={path}')
+                print(f'  signature={sig}')
+                print(f'  note=state leaked across runs: the replay file re-executes {len(hist)} runs in order (not minimised)')
+                print(f'  detail={kernel.jdump(u["incident"]["detail"])[:1500]}')
+                rc = max(rc, 1)
+                continue
+            print(f'HARNESS-NONDETERMINISM signature={sig} did not reproduce in-process nor as a history of {len(hist)} runs (run {u["desc"]})')
             rc = max(rc, 2)
             continue
         rec = Eng().replay(events)
